@@ -504,7 +504,10 @@ fn c06_finding_duplicate_sequence_id_counts() {
 pub(crate) static mut REC_CALLS: u32 = 0;
 pub(crate) static mut REC_ARGS: Option<(Header, AnnounceMessage, i128)> = None;
 pub(crate) static mut REC_INTERVAL: Option<TimeInterval> = None;
-pub(crate) fn rec_reset() { unsafe { REC_CALLS = 0; REC_ARGS = None; REC_INTERVAL = None; } }
+pub(crate) static mut REC_STEP: Option<i128> = None;
+pub(crate) fn rec_reset() { unsafe { REC_CALLS = 0; REC_ARGS = None; REC_INTERVAL = None; REC_STEP = None; } }
+pub(crate) fn rec_note_step(step: Duration) { unsafe { REC_CALLS += 1; REC_STEP = Some(dur_bits(step)); } }
+pub(crate) fn rec_step() -> Option<i128> { unsafe { REC_STEP } }
 pub(crate) fn rec_calls() -> u32 { unsafe { REC_CALLS } }
 pub(crate) fn rec_args() -> Option<(Header, AnnounceMessage, i128)> { unsafe { REC_ARGS } }
 pub(crate) fn rec_note(h: Header, m: AnnounceMessage, age: Duration) { unsafe { REC_CALLS += 1; REC_ARGS = Some((h, m, dur_bits(age))); } }
